@@ -35,6 +35,8 @@ BigVals == <<<<1, 0, 0, 32>>,            \* 2^53 + 1
              <<0, 0, 0, 32768>>,         \* 2^63
              <<65535, 65535, 65535, 32767>>,   \* 2^63 - 1
              <<61439, 65535, 65535, 65535>>,   \* 2^64 - 4097
+             <<65472, 65535, 65535, 65535>>,   \* 2^64 - 64: the largest argument of bits_to_words' documented domain (n + 63 <= MAX)
+             <<65528, 65535, 65535, 65535>>,   \* 2^64 - 8: the largest argument of bytes_to_words' documented domain (n + 7 <= MAX)
              <<12345, 54321, 7, 1>>,
              <<0, 0, 1, 0>>>>            \* 2^32
 BigDivs == <<1, 2, 3, 7, 8, 64, 4096>>
